@@ -30,6 +30,14 @@ ASSUMPTIONS = [
     "overload, or a parameter of a user class / callable type are not called "
     "downstream (the inferred type is then not a single stub-level type)",
     "ground arguments are built from the declared parameter types",
+    "generic classes: the expected type of a member read through C[args] is "
+    "the stub's declaration with C's parameters replaced, parameters ordered "
+    "as PEP 484 says (Generic[...] if present, else first appearance in the "
+    "bases); members of user bases are followed, the MRO is not (a name two "
+    "bases define is skipped)",
+    "members whose type contains None are not read inside downstream "
+    "functions (None from an attribute becomes Any there unless "
+    "--strict-none-binding is given; vm.py _filter_none_and_paste_bindings)",
 ]
 
 FORBIDDEN = {"import-error", "pyi-error", "attribute-error", "module-attr"}
@@ -150,6 +158,168 @@ def call_args(sig, pytd, user_classes, skip_first=False):
   return ", ".join(args)
 
 
+# ---- generic classes: PEP 484 semantics read off the stub, independent of
+# pytype's own template bookkeeping
+
+def typevars_in(t, pytd, out):
+  if isinstance(t, pytd.TypeParameter):
+    if t.name not in out:
+      out.append(t.name)
+  elif isinstance(t, pytd.GenericType):
+    for x in t.parameters:
+      typevars_in(x, pytd, out)
+  elif isinstance(t, (pytd.UnionType,)):
+    for x in t.type_list:
+      typevars_in(x, pytd, out)
+  elif isinstance(t, pytd.TupleType):
+    for x in t.parameters:
+      typevars_in(x, pytd, out)
+  elif isinstance(t, pytd.CallableType):
+    for x in t.args:
+      typevars_in(x, pytd, out)
+    typevars_in(t.ret, pytd, out)
+  elif isinstance(t, pytd.Annotated):
+    typevars_in(t.base_type, pytd, out)
+  return out
+
+
+def params_of(cls, pytd):
+  """Type parameters of a class in PEP 484 order: those of Generic[...] if it
+  is a base, else by first appearance in the bases, left to right."""
+  for b in cls.bases:
+    if isinstance(b, pytd.GenericType) and short(b.base_type.name) in (
+        "typing.Generic", "Generic"):
+      return typevars_in(b, pytd, [])
+  out = []
+  for b in cls.bases:
+    typevars_in(b, pytd, out)
+  return out
+
+
+def subst(t, sigma, pytd):
+  if isinstance(t, pytd.TypeParameter):
+    return sigma.get(t.name, t)
+  if isinstance(t, pytd.GenericType):
+    return t.Replace(parameters=tuple(subst(x, sigma, pytd)
+                                      for x in t.parameters))
+  if isinstance(t, pytd.UnionType):
+    return pytd.UnionType(tuple(subst(x, sigma, pytd) for x in t.type_list))
+  if isinstance(t, pytd.TupleType):
+    return t.Replace(parameters=tuple(subst(x, sigma, pytd)
+                                      for x in t.parameters))
+  if isinstance(t, pytd.Annotated):
+    return subst(t.base_type, sigma, pytd)
+  return t
+
+
+def generic_members(cname, sigma, table, pytd, depth=0):
+  """{member: ('attr'|'meth', type with the class's parameters replaced)} of a
+  user class, inherited members of user bases included (a name defined by two
+  different bases is dropped: the MRO is not modelled here)."""
+  cls = table[cname]
+  out = {}
+  for k in cls.constants:
+    n = k.name.split(".")[-1]
+    if not n.startswith("_"):
+      out[n] = ("attr", subst(k.type, sigma, pytd))
+  for m in cls.methods:
+    if (m.name.startswith("_") or len(m.signatures) != 1 or
+        "METHOD" not in str(m.kind).upper() or "STATIC" in str(m.kind) or
+        "CLASS" in str(m.kind)):
+      continue
+    sig = m.signatures[0]
+    if sig.starargs or sig.starstarargs or any(
+        not p.optional for p in sig.params[1:]):
+      continue
+    extra = [v for v in typevars_in(sig.return_type, pytd, [])
+             if v not in sigma]
+    if extra:
+      continue
+    out[m.name] = ("meth", subst(sig.return_type, sigma, pytd))
+  if depth < 4:
+    inherited = {}
+    dropped = set()
+    for b in cls.bases:
+      bn = short(b.base_type.name if isinstance(b, pytd.GenericType) else
+                 getattr(b, "name", ""))
+      if bn not in table:
+        continue
+      bp = params_of(table[bn], pytd)
+      args = (tuple(subst(a, sigma, pytd) for a in b.parameters)
+              if isinstance(b, pytd.GenericType) else ())
+      if len(args) != len(bp):
+        bs = {v: pytd.AnythingType() for v in bp}
+      else:
+        bs = dict(zip(bp, args))
+      for n, v in generic_members(bn, bs, table, pytd, depth + 1).items():
+        if n in inherited and inherited[n] != v:
+          dropped.add(n)
+        inherited[n] = v
+    for n, v in inherited.items():
+      if n not in out and n not in dropped:
+        out[n] = v
+  return out
+
+
+GROUND_ROTATIONS = [["int", "str", "float"], ["str", "bytes", "int"]]
+
+
+def derive_generic(ast, lines, expect, fexpect):
+  """Reads through parameterised instances of user generic classes."""
+  _, pytd, _, _ = _mods()
+  table = {}
+
+  def reg(cs, prefix):
+    for c in cs:
+      q = prefix + c.name.split(".")[-1]
+      table[q] = c
+      reg(c.classes, q + ".")
+
+  reg(ast.classes, "")
+  generic = {q: params_of(c, pytd) for q, c in table.items()}
+  generic = {q: ps for q, ps in generic.items() if ps}
+  # (1) module-level values whose declared type is C[args]: read every member
+  #     (twice: the second pass re-reads after the other instances were read)
+  reads = []
+  for c in ast.constants:
+    n = c.name.split(".")[-1]
+    t = c.type
+    if n.startswith("_") or not isinstance(t, pytd.GenericType):
+      continue
+    q = short(t.base_type.name)
+    if q not in generic or len(generic[q]) != len(t.parameters):
+      continue
+    sigma = dict(zip(generic[q], t.parameters))
+    for m, (kind, mt) in sorted(generic_members(q, sigma, table, pytd).items()):
+      reads.append((n, m, kind, mt))
+  for tag in ("g", "h"):
+    for n, m, kind, mt in reads:
+      name = "%s_%s_%s" % (tag, n, m)
+      lines.append("%s = modA.%s.%s%s" % (name, n, m,
+                                         "()" if kind == "meth" else ""))
+      expect[name] = mt
+  # (2) a function parameter annotated C[ground types]: the function's return
+  #     type is the member's type
+  for q, ps in sorted(generic.items()):
+    if any(x.startswith("_") for x in q.split(".")):
+      continue
+    for r, rot in enumerate(GROUND_ROTATIONS):
+      names = [rot[i % len(rot)] for i in range(len(ps))]
+      sigma = {v: pytd.NamedType("builtins." + g) for v, g in zip(ps, names)}
+      ann = "modA.%s[%s]" % (q, ", ".join(names))
+      for m, (kind, mt) in sorted(
+          generic_members(q, sigma, table, pytd).items()):
+        if "NoneType" in norm(mt, pytd):
+          # None read from an attribute inside a function is turned into Any
+          # on purpose unless --strict-none-binding is given (vm.py
+          # _filter_none_and_paste_bindings): outside the property
+          continue
+        fn = "q%d_%s_%s" % (r, q.replace(".", "_"), m)
+        lines.append("def %s(o: %s):\n  return o.%s%s" % (
+            fn, ann, m, "()" if kind == "meth" else ""))
+        fexpect[fn] = mt
+
+
 def derive_downstream(ast):
   """-> (source of B, {name in B: expected pytd type})."""
   _, pytd, _, _ = _mods()
@@ -220,6 +390,9 @@ def derive_downstream(ast):
         continue
       lines.append("m_%s_%s = i_%s.%s(%s)" % (cn, m.name, cn, m.name, a2))
       expect["m_%s_%s" % (cn, m.name)] = sig.return_type
+  fexpect = {}
+  derive_generic(ast, lines, expect, fexpect)
+  derive_downstream.fexpect = fexpect
   return "\n".join(lines) + "\n", expect
 
 
@@ -233,7 +406,8 @@ def check_upstream(ctx, prog):
     ctx.event("upstream-analysis-raised:" + type(e).__name__)
     return
   src_b, expect = derive_downstream(ra.ast)
-  if len(expect) < 2:
+  fexpect = derive_downstream.fexpect
+  if len(expect) + len(fexpect) < 2:
     ctx.event("upstream-exports-too-little")
     return
   d = os.path.join(boot.VERIF, ".run", "C06", "s%d" % ctx.shard)
@@ -309,6 +483,31 @@ def check_upstream(ctx, prog):
                 "--- modA.pyi\n%s" % (cname, name, norm(got, pytd),
                                       norm(want, pytd), ra.pyi[:900]),
                 dict(case, config=cname))
+    # functions over parameterised instances: return type = member type
+    funcs = {f.name.split(".")[-1]: f for f in rb.ast.functions}
+    for fn, want in fexpect.items():
+      f = funcs.get(fn)
+      line = next((i + 1 for i, l in enumerate(blines)
+                   if l.startswith("def %s(" % fn)), 0)
+      ctx.case(key=(src_a, cname, fn), nontrivial=True,
+               sample="%s: %s -> upstream %s" % (cname, blines[line - 1],
+                                                 norm(want, pytd)),
+               classes=["config:" + cname, "kind:generic-param"])
+      if line in flagged_lines or line + 1 in flagged_lines:
+        ctx.event("downstream-line-has-other-error")
+        continue
+      if f is None or len(f.signatures) != 1:
+        ctx.check(False, "re-exported-name-missing[%s]" % cname,
+                  "%s not in downstream stub" % fn, dict(case, config=cname))
+        continue
+      got = f.signatures[0].return_type
+      ctx.check(norm(got, pytd) == norm(want, pytd),
+                "type-changed-through-stub[%s]:generic-param" % cname,
+                "%s: %s returns %s downstream, the upstream stub's "
+                "declaration instantiates to %s\n--- modA.pyi\n%s" % (
+                    cname, blines[line - 1] + " " + blines[line].strip(),
+                    norm(got, pytd), norm(want, pytd), ra.pyi[:1200]),
+                dict(case, config=cname))
   if len(stubs) >= 2:
     vals = list(stubs.items())
     for cname, text in vals[1:]:
@@ -318,6 +517,81 @@ def check_upstream(ctx, prog):
 
 
 FIXED = [
+    # generic classes: members typed by the class's parameters, read through
+    # differently parameterised instances
+    """from typing import Dict, Generic, List, Optional, Tuple, TypeVar
+T = TypeVar("T")
+class Shelf(Generic[T]):
+  def __init__(self, first: T):
+    self.first = first
+    self.items: List[T] = [first]
+    self.index: Dict[str, List[T]] = {}
+    self.tagged: Tuple[T, int] = (first, 0)
+    self.spare: Optional[T] = None
+    self.size = 1
+  def top(self) -> T:
+    return self.first
+nums = Shelf(1)
+words = Shelf("w")
+blobs = Shelf(b"b")
+""",
+    # parameters taken from a base, in non-alphabetical order and permuted
+    """from typing import Generic, List, TypeVar
+K = TypeVar("K")
+V = TypeVar("V")
+W = TypeVar("W")
+class Pair(Generic[K, V]):
+  def __init__(self, key: K, val: V):
+    self.key = key
+    self.val = val
+  def get_key(self) -> K:
+    return self.key
+  def get_val(self) -> V:
+    return self.val
+class Flipped(Pair[V, K]):
+  def __init__(self, val: K, key: V):
+    Pair.__init__(self, key, val)
+    self.written_first: K = val
+    self.log: List[K] = [val]
+class Ordered(Pair[K, V]):
+  def __init__(self, key: K, val: V):
+    Pair.__init__(self, key, val)
+    self.vals: List[V] = [val]
+class Triple(Pair[W, K], Generic[K, V, W]):
+  def __init__(self, a: K, b: V, c: W):
+    Pair.__init__(self, c, a)
+    self.mid: V = b
+plain = Pair("k", 1)
+flipped = Flipped(1.5, "k")
+ordered = Ordered("k", 2)
+triple = Triple(1, "s", 2.5)
+""",
+    # public types from modules imported under an alias
+    """import collections as coll
+import enum as en
+class Color(en.Enum):
+  RED = 1
+  BLUE = 2
+class Mode(en.IntEnum):
+  A = 1
+counts = coll.defaultdict(int)
+od = coll.OrderedDict()
+Pt = coll.namedtuple("Pt", ["x", "y"])
+fav = Color.RED
+mode = Mode.A
+origin = Pt(0, 0)
+def pick(flag):
+  if flag:
+    return Color.BLUE
+  return fav
+def table():
+  return coll.defaultdict(list)
+class Holder:
+  def __init__(self):
+    self.c = Color.RED
+    self.d = coll.OrderedDict()
+hold = Holder()
+""",
     # nested class named like a module-level class; a method returns the
     # module-level one (fix 3694df8)
     """class Node:
@@ -405,6 +679,9 @@ def run_shard(ctx):
   cfg2 = gen_py.Cfg(n_stmts=(5, 12), annotations=0.4)
   hyp_run(ctx, gen_py.program(cfg2), lambda p: check_upstream(ctx, p),
           4 if ctx.quick() else 200, label="G-annotated")
+  cfg3 = gen_py.Cfg.everything(annotations=0.3, n_stmts=(4, 10))
+  hyp_run(ctx, gen_py.program(cfg3), lambda p: check_upstream(ctx, p),
+          4 if ctx.quick() else 200, label="G-everything")
 
 
 def replay(ctx, case):
